@@ -1,6 +1,407 @@
-// engine_extra.cpp -- payload attribution (C14) and plan storage (C07 / C19) oracles.
+// engine_extra.cpp -- plan storage (C07 / C19), plan execution (C06) and payload attribution (C14) oracles.
 #include "engine.hpp"
+#include <algorithm>
+#include <cstdio>
+
 namespace vf {
-void World::checkPayloads(int, const Op&, const Obs&) {}
-void World::checkPlansStorage(int, const Op&, const Obs&) {}
+
+namespace {
+
+int firstGuardEvent(const Harness& h) {
+	for (size_t k = 0; k < h.trace.size(); ++k) { const Ev& e = h.trace[k]; if ((e.k == EV_CB || e.k == EV_INJ) && (e.method == M_ENTRY_GUARD || e.method == M_EXIT_GUARD)) return int(k); }
+	return -1;
 }
+
+bool isPass(int m) { return m == M_PRE_UPDATE || m == M_UPDATE || m == M_POST_UPDATE || m == M_PRE_REACT || m == M_REACT || m == M_POST_REACT; }
+
+bool subsequence(const std::vector<TaskV>& small, const std::vector<TaskV>& big) {
+	size_t j = 0;
+	for (size_t k = 0; k < big.size() && j < small.size(); ++k) if (small[j] == big[k]) ++j;
+	return j == small.size();
+}
+
+struct Edit { int type, region, kind, origin, dest, index; bool ok, hasP; int64_t p; int ev; };
+
+Edit decode(const Ev& e, int at) {
+	Edit d{};
+	d.type = e.a & 0xFF; d.region = (e.a >> 8) & 0xFF; d.kind = (e.a >> 16) & 0xFF; d.ev = at;
+	if (d.type == A_PLAN_APPEND) { d.origin = e.b; d.dest = e.c & 0xFFFF; d.ok = (e.c & 0x10000) != 0; d.hasP = e.hasP; d.p = e.p; }
+	else if (d.type == A_PLAN_REMOVE) { d.index = e.b; d.ok = e.c != 0; }
+	return d;
+}
+
+} // namespace
+
+// ---- C07 / C19: the per-region lists, the pool, the links -------------------------------------------------------------------
+
+void World::checkPlansStorage(int i, const Op& op, const Obs& before) {
+	Slot& s = slots[size_t(i)];
+	if (!(s.node->caps() & CAP_PLANS) || !s.obs.alive) return;
+	const bool w07 = wants("C07"), w19 = wants("C19"), w06 = wants("C06");
+	if (!w07 && !w19 && !w06) return;
+	Harness& h = *s.h;
+	const Shape& sh = *h.shape;
+	char b[300];
+	const int capacity = s.node->taskCapacity();
+
+	// 1. link structure through the probe: disjoint acyclic doubly linked lists, lengths add up, vacant list well formed
+	PlanProbe pp; s.node->probePlans(pp);
+	if (w07 || w19) {
+		checked("C07.links");
+		std::vector<int> owner(size_t(pp.capacity), -1);
+		int total = 0;
+		for (int g = 0; g < sh.nRegions; ++g) {
+			int prev = -1, len = 0;
+			for (int t = pp.boundFirst[size_t(g)]; t != -1; t = pp.linkNext[size_t(t)]) {
+				if (t < 0 || t >= pp.capacity) { std::snprintf(b, sizeof b, "%s: plan of region %d links to slot %d outside the pool", h.role.c_str(), g, t); violate("C07.links", b, i); return; }
+				if (owner[size_t(t)] != -1) { std::snprintf(b, sizeof b, "%s: task slot %d is linked twice (regions %d and %d): plans are not disjoint / acyclic", h.role.c_str(), t, owner[size_t(t)], g); violate("C07.links", b, i); return; }
+				owner[size_t(t)] = g;
+				if (pp.linkPrev[size_t(t)] != prev) { std::snprintf(b, sizeof b, "%s: region %d: slot %d has prev link %d, expected %d", h.role.c_str(), g, t, pp.linkPrev[size_t(t)], prev); violate("C07.links", b, i); return; }
+				prev = t; ++len;
+				if (len > pp.capacity) break;
+			}
+			if (pp.boundLast[size_t(g)] != prev) { std::snprintf(b, sizeof b, "%s: region %d: last bound %d but the list ends at %d", h.role.c_str(), g, pp.boundLast[size_t(g)], prev); violate("C07.links", b, i); return; }
+			if (len != int(s.obs.plans[size_t(g)].size())) { std::snprintf(b, sizeof b, "%s: region %d: %d linked tasks but iteration yields %zu", h.role.c_str(), g, len, s.obs.plans[size_t(g)].size()); violate("C07.links", b, i); return; }
+			total += len;
+		}
+		if (total != pp.count) { std::snprintf(b, sizeof b, "%s: plans hold %d tasks but the pool counts %d", h.role.c_str(), total, pp.count); violate("C07.links", b, i); return; }
+		checked("C19.pool");
+		if (pp.count > pp.capacity || pp.count < 0) { violate("C19.pool", h.role + ": pool count out of range", i); return; }
+		if (pp.count < pp.capacity) {
+			// vacant chain: never a live slot, ends at the tail, no cycle
+			// walk from the head until the tail is reached (what lies behind the tail is stale storage after clear())
+			int steps = 0, t = pp.vacantHead;
+			if (t < 0 || t >= pp.capacity || pp.vacantTail < 0 || pp.vacantTail >= pp.capacity) { violate("C19.pool", h.role + ": pool not full but no vacant head / tail", i); return; }
+			for (;;) {
+				if (t < 0 || t >= pp.capacity) { violate("C19.pool", h.role + ": vacant list leaves the pool before reaching its tail", i); return; }
+				if (owner[size_t(t)] != -1) { std::snprintf(b, sizeof b, "%s: slot %d is both in use (region %d) and on the vacant list", h.role.c_str(), t, owner[size_t(t)]); violate("C19.pool", b, i); return; }
+				if (t == pp.vacantTail) break;
+				t = pp.itemNext[size_t(t)];
+				if (++steps > pp.capacity) { violate("C19.pool", h.role + ": vacant list is cyclic", i); return; }
+			}
+		} else if (pp.vacantHead != -1 || pp.vacantTail != -1) { violate("C19.pool", h.role + ": pool full but vacant list not empty", i); return; }
+		if (pp.count == pp.capacity) probe("pool_full");
+		if (pp.count == 0 && before.alive && !before.plans.empty()) { size_t n0 = 0; for (auto& p : before.plans) n0 += p.size(); if (n0) probe("pool_emptied"); }
+	}
+
+	// 2. the edits of this op applied to a vector-per-region model
+	if (!before.alive || before.plans.size() != s.obs.plans.size()) return;
+	std::vector<std::vector<TaskV>> model = before.plans;
+	std::vector<Edit> edits;
+	int lastPassEv = -1, firstAfterPass = -1;
+	for (size_t k = 0; k < h.trace.size(); ++k) {
+		const Ev& e = h.trace[k];
+		if (e.k == EV_PLAN_EDIT) edits.push_back(decode(e, int(k)));
+		if ((e.k == EV_CB || e.k == EV_INJ) && isPass(e.method)) lastPassEv = int(k);
+		else if ((e.k == EV_CB || e.k == EV_INJ) && lastPassEv >= 0 && firstAfterPass < 0) firstAfterPass = int(k);
+	}
+	const bool step = op.kind == OP_UPDATE || op.kind == OP_REACT;
+	const bool wipes = op.kind == OP_EXIT || op.kind == OP_SNAPSHOT || op.kind == OP_DELIVER || op.kind == OP_RESTART || (op.kind == OP_ENTER && !before.activated);
+	if (wipes && edits.empty()) return;      // exit() and load() clear the plan data; nothing to compare
+	bool exact = !wipes;
+	int count = 0; for (auto& p : model) count += int(p.size());
+	std::vector<std::vector<TaskV>> execModel; bool execTaken = false;   // the plans as they stood when the passes ended (what the executor saw)
+	for (const Edit& e : edits) {
+		if (e.region < 0 || e.region >= sh.nRegions) continue;
+		const bool afterExecution = step && lastPassEv >= 0 && e.ev > lastPassEv;
+		if (afterExecution && !execTaken) { execModel = model; execTaken = true; }
+		if (afterExecution) exact = false;       // executed tasks are gone by now: indices and counts are no longer known to this model
+		auto& pl = model[size_t(e.region)];
+		if (e.type == A_PLAN_APPEND) {
+			if (!afterExecution && (w07 || w19)) {
+				checked("C07.append_result");
+				if (e.ok != (count < capacity)) {
+					std::snprintf(b, sizeof b, "%s: append to region %d returned %s with %d of %d tasks stored", h.role.c_str(), e.region, e.ok ? "true" : "false", count, capacity);
+					violate("C07.append_result", b, i); return;
+				}
+				if (!e.ok) probe("append_rejected_at_capacity");
+			}
+			if (e.ok) { TaskV t; t.origin = e.origin; t.dest = e.dest; t.kind = e.kind; t.hasPayload = e.hasP; t.payload = e.p; pl.push_back(t); ++count; ++s.appendsOk; }
+		} else if (e.type == A_PLAN_CLEAR) { count -= int(pl.size()); pl.clear(); }
+		else if (e.type == A_PLAN_REMOVE) {
+			if (!afterExecution) {
+				if (e.ok != (e.index >= 0 && e.index < int(pl.size())) && (w07 || w19)) { violate("C07.remove", h.role + ": remove-while-iterating reported the wrong outcome", i); return; }
+				if (e.ok && e.index < int(pl.size())) { pl.erase(pl.begin() + e.index); --count; ++s.removals; if (s.appendsOk > s.removals) probe("slot_recycled_candidate"); }
+			} else if (e.ok) exact = false;
+		}
+	}
+	if (!execTaken) execModel = model;
+	if (w07 || w19) {
+		uint64_t hh = std::hash<std::string>()(sh.name);
+		for (size_t g = 0; g < s.obs.plans.size(); ++g) hh = mix64(hh, s.obs.plans[g].size() * 31 + g);
+		hh = mix64(hh, uint64_t(pp.vacantHead + 1) * 64 + uint64_t(pp.last));
+		distinct(hh);
+		for (int g = 0; g < sh.nRegions; ++g) {
+			const auto& now = s.obs.plans[size_t(g)];
+			const auto& want = model[size_t(g)];
+			checked("C07.contents");
+			if (!step && exact) {
+				if (!(now == want)) {
+					std::snprintf(b, sizeof b, "%s: after %s the plan of region %d holds %zu task(s); the edits applied to its previous content give %zu (order / origin / destination / kind / payload must match)", h.role.c_str(), opName(op.kind), g, now.size(), want.size());
+					violate("C07.contents", b, i); return;
+				}
+			} else if (exact || step) {
+				// a step may have executed (removed) tasks: what remains is an ordered sub-sequence with untouched contents
+				if (exact && !subsequence(now, want)) {
+					std::snprintf(b, sizeof b, "%s: after %s the plan of region %d (%zu tasks) is not an ordered sub-sequence of what the edits produce (%zu tasks)", h.role.c_str(), opName(op.kind), g, now.size(), want.size());
+					violate("C07.contents", b, i); return;
+				}
+			}
+		}
+	}
+
+	// 3. plan execution (C06)
+	if (!step) {
+		// marks set from guards / enter / exit of an immediate transition wait for the next step
+		s.extSuccess.resize(size_t(sh.n), 0); s.extFailure.resize(size_t(sh.n), 0);
+		for (auto& e : h.trace) {
+			if (e.state < 0) continue;     // client calls are recorded where they are made
+			if (e.k == EV_SUCCEED && e.a > 0 && e.a < sh.n) s.extSuccess[size_t(e.a)] = 1;
+			if (e.k == EV_FAIL && e.a > 0 && e.a < sh.n) s.extFailure[size_t(e.a)] = 1;
+			if (e.k == EV_PLAN_EDIT && (e.a & 0xFF) == A_PLAN_CLEAR) { const int g = (e.a >> 8) & 0xFF; if (g >= 0 && g < sh.nRegions) { const int hd = sh.regionHead[size_t(g)]; for (int x = hd; x < hd + sh.st[size_t(hd)].size; ++x) s.extSuccess[size_t(x)] = s.extFailure[size_t(x)] = 0; } }
+			if (e.k == EV_CB && e.method == M_EXIT) s.extSuccess[size_t(e.state)] = s.extFailure[size_t(e.state)] = 0;
+		}
+		if (op.kind == OP_PLAN_CLEAR && op.a >= 0 && op.a < sh.nRegions) { const int hd = sh.regionHead[size_t(op.a)]; for (int x = hd; x < hd + sh.st[size_t(hd)].size; ++x) s.extSuccess[size_t(x)] = s.extFailure[size_t(x)] = 0; }
+		return;
+	}
+	if (!w06 || !before.activated) { std::fill(s.extSuccess.begin(), s.extSuccess.end(), 0); std::fill(s.extFailure.begin(), s.extFailure.end(), 0); return; }
+	// success / failure marks of this step: external ones waiting since the last step, and those set in callbacks
+	std::vector<uint8_t> succ = s.extSuccess, fail = s.extFailure;
+	succ.resize(size_t(sh.n), 0); fail.resize(size_t(sh.n), 0);
+	std::vector<uint8_t> lateS(size_t(sh.n), 0), lateF(size_t(sh.n), 0);   // set after the passes (guards, enter, exit): they wait for the next step
+	for (size_t k = 0; k < h.trace.size(); ++k) {
+		const Ev& e = h.trace[k];
+		const bool late = lastPassEv >= 0 && int(k) > lastPassEv && firstAfterPass >= 0 && int(k) > firstAfterPass;
+		int target = -1, ok = 0;
+		if (e.k == EV_SUCCEED && e.a > 0 && e.a < sh.n) { target = e.a; ok = 1; }
+		if (e.k == EV_FAIL && e.a > 0 && e.a < sh.n) { target = e.a; ok = 0; }
+		if (e.k == EV_DEFAULT && e.state > 0) { target = e.state; ok = e.method == M_PLAN_SUCCEEDED; }
+		if (target >= 0) {
+			// marks set from plan callbacks belong to this step; marks set from guards / enter / exit come after the plans were processed
+			const bool fromPlanCb = e.method == M_PLAN_SUCCEEDED || e.method == M_PLAN_FAILED;
+			if (late && !fromPlanCb) (ok ? lateS : lateF)[size_t(target)] = 1; else (ok ? succ : fail)[size_t(target)] = 1;
+		}
+		if (e.k == EV_PLAN_EDIT && (e.a & 0xFF) == A_PLAN_CLEAR) {
+			const int g = (e.a >> 8) & 0xFF;
+			if (g >= 0 && g < sh.nRegions) { const int hd = sh.regionHead[size_t(g)]; for (int x = hd; x < hd + sh.st[size_t(hd)].size; ++x) { if (!late) succ[size_t(x)] = fail[size_t(x)] = 0; lateS[size_t(x)] = lateF[size_t(x)] = 0; } }
+		}
+		if (e.k == EV_CB && e.method == M_EXIT && late) { lateS[size_t(e.state)] = lateF[size_t(e.state)] = 0; }
+	}
+	s.extSuccess = lateS; s.extFailure = lateF;
+	// marks never survive the step that consumed them
+	checked("C06.marks_cleared");
+	for (int k = 0; k < sh.n; ++k) if ((pp.success[size_t(k)] && !lateS[size_t(k)]) || (pp.failure[size_t(k)] && !lateF[size_t(k)])) {
+		std::snprintf(b, sizeof b, "%s: the %s mark of state %d survived the step", h.role.c_str(), pp.success[size_t(k)] ? "success" : "failure", k); violate("C06.marks_cleared", b, i); return; }
+	// plan-issued requests: first-round pending entries (or queued leftovers) whose origin is a region head and that no callback issued
+	const int fge = firstGuardEvent(h);
+	std::vector<Tr> issuedByUser;
+	for (auto& q : before.queued) issuedByUser.push_back(q);
+	for (size_t k = 0; k < h.trace.size(); ++k) { const Ev& e = h.trace[k]; if (e.k == EV_ISSUE && (fge < 0 || int(k) < fge)) { Tr t; t.origin = e.state; t.kind = e.a; t.dest = e.b; t.hasPayload = e.hasP; t.payload = e.p; issuedByUser.push_back(t); } }
+	std::vector<Tr> firstRound;
+	if (!h.guards.empty()) firstRound = h.guards.front().pending; else firstRound = s.obs.queued;
+	std::vector<Tr> planIssued;
+	bool issuedKnown = true;
+	if (!h.guards.empty() || !s.obs.queued.empty()) {
+		size_t j = 0; for (auto& q : firstRound) { if (j < issuedByUser.size() && q == issuedByUser[j]) { ++j; continue; } planIssued.push_back(q); }
+	} else if (h.loggerOn) {
+		// the logger hears every request; those nobody issued from a callback come from plans (payloads are not part of the record: take them from the queue when present)
+		std::vector<Ev> logged, issuedEv;
+		for (auto& e : h.trace) { if (e.k == EV_LOG_TRANSITION) logged.push_back(e); if (e.k == EV_ISSUE) issuedEv.push_back(e); }
+		size_t j = 0;
+		for (auto& l : logged) {
+			if (j < issuedEv.size() && l.state == issuedEv[j].state && l.a == issuedEv[j].a && l.b == issuedEv[j].b) { ++j; continue; }
+			Tr t; t.origin = l.state; t.kind = l.a; t.dest = l.b; t.method = 99;   // 99: payload not known from this source
+			if (t.origin >= 0 && sh.isRegion(t.origin)) planIssued.push_back(t);
+		}
+	} else issuedKnown = false;    // no guard ran and no logger listened: requests that changed nothing left no trace
+	// tasks that disappeared from the (edited) plans
+	bool editsAfterPass = false; for (auto& e : edits) if (lastPassEv >= 0 && e.ev > lastPassEv) editsAfterPass = true;
+	for (const Tr& q : planIssued) {
+		checked("C06.issued_matches_task");
+		probe("plan_task_executed");
+		if (q.origin < 0 || !sh.isRegion(q.origin)) { std::snprintf(b, sizeof b, "%s: request %s(%d) from %d appeared in the queue although nobody issued it", h.role.c_str(), kindName(q.kind), q.dest, q.origin); violate("C06.issued_matches_task", b, i); return; }
+		const int g = sh.st[size_t(q.origin)].region;
+		const auto& pl = execModel[size_t(g)];
+		bool found = false, kindOk = false, originOk = false;
+		for (auto& t : pl) {
+			if (t.dest != q.dest) continue;
+			if (q.method != 99 && (t.hasPayload != q.hasPayload || (t.hasPayload && t.payload != q.payload))) continue;
+			found = true;
+			if (t.kind == q.kind) kindOk = true;
+			if (before.active[size_t(t.origin)] && succ[size_t(t.origin)]) originOk = true;
+		}
+		if (!found) { std::snprintf(b, sizeof b, "%s: region %d issued %s(%d)%s on behalf of its plan, but no stored task has that destination and payload", h.role.c_str(), q.origin, kindName(q.kind), q.dest, q.hasPayload ? " with payload" : ""); violate("C06.issued_matches_task", b, i); return; }
+		if (!originOk) { std::snprintf(b, sizeof b, "%s: region %d executed a task to %d whose origin was not active-and-succeeded in this step", h.role.c_str(), q.origin, q.dest); violate("C06.issued_matches_task", b, i); return; }
+		if (!kindOk) { std::snprintf(b, sizeof b, "%s: region %d executed its task to %d as '%s', the task was created with another kind", h.role.c_str(), q.origin, q.dest, kindName(q.kind)); violate("C06.task_kind", b, i, q.kind == K_CHANGE ? "plan_task_kind_ignored" : ""); return; }
+	}
+	// executed tasks are removed, exactly once each: per region, stored-before-minus-stored-after must equal what was issued (when nothing else edited the plans afterwards)
+	if (!editsAfterPass && issuedKnown) for (int g = 0; g < sh.nRegions; ++g) {
+		const auto& want = model[size_t(g)];
+		const auto& now = s.obs.plans[size_t(g)];
+		if (!subsequence(now, want)) continue;    // reported by C07
+		int removed = int(want.size()) - int(now.size());
+		int issued = 0; for (auto& q : planIssued) if (q.origin == sh.regionHead[size_t(g)]) ++issued;
+		// planSucceeded clears the (empty) plan, exit of the region keeps tasks: only compare when something was issued or removed
+		if (removed == 0 && issued == 0) continue;
+		checked("C06.removed_once");
+		if (removed != issued) {
+			std::snprintf(b, sizeof b, "%s: region %d issued %d plan transition(s) but %d task(s) disappeared from its plan", h.role.c_str(), g, issued, removed);
+			// the queue may have been full: the request is dropped while the task is still removed
+			violate("C06.removed_once", b, i, int(firstRound.size()) >= sh.compoCount ? "plan_task_dropped_when_queue_full" : ""); return;
+		}
+	}
+	// completeness in the simple situation the statement describes: marks only on active direct leaf sub-states of one region
+	for (int g = 0; g < sh.nRegions; ++g) {
+		const int head = sh.regionHead[size_t(g)];
+		if (!before.active[size_t(head)] || !pp.planExists[size_t(g)]) continue;
+		bool simple = true, anySucc = false, anyFail = false;
+		for (int k = 1; k < sh.n; ++k) {
+			if (!succ[size_t(k)] && !fail[size_t(k)]) continue;
+			const bool direct = sh.st[size_t(k)].parent == head && !sh.isRegion(k) && before.active[size_t(k)];
+			if (!direct) { simple = false; break; }
+			if (succ[size_t(k)]) anySucc = true;
+			if (fail[size_t(k)]) anyFail = true;
+		}
+		if (!simple || (!anySucc && !anyFail)) continue;
+		// no transition requested by anybody in the passes (outer-transition suppression is not modelled), no edits in the passes
+		bool quiet = true;
+		for (auto& e : h.trace) if (e.k == EV_ISSUE || e.k == EV_PLAN_EDIT) quiet = false;
+		// a callback reporting on behalf of another state credits the caller's position: only self-reports and client calls are the statement's "a sub-state succeeds"
+		for (auto& e : h.trace) if ((e.k == EV_SUCCEED || e.k == EV_FAIL) && e.state >= 0 && e.state != e.a) quiet = false;
+		if (!quiet || !before.queued.empty() || !issuedKnown) continue;
+		// nested plan-owning regions between are excluded by "direct leaf"; ancestors may also react, that is their business
+		const auto& pl = before.plans[size_t(g)];
+		int planCb = 0, planCbKind = 0;
+		for (auto& e : h.trace) if (e.k == EV_CB && e.state == head && (e.method == M_PLAN_SUCCEEDED || e.method == M_PLAN_FAILED)) { ++planCb; planCbKind = e.method; }
+		checked("C06.complete");
+		distinct(mix64(mix64(0xC06, std::hash<std::string>()(sh.name)), uint64_t(g) * 4096 + pl.size() * 8 + (anyFail ? 4 : 0) + (anySucc ? 2 : 0)));
+		const bool bottomUp = (s.node->caps() & CAP_BOTTOMUP) != 0;
+		bool childrenFirst = false;   // documented: in phases that visit sub-states before their head the head's pass returns the sub-state's status as its own
+		for (auto& e : h.trace) if ((e.k == EV_SUCCEED || e.k == EV_FAIL) && (e.method == M_POST_UPDATE || (!bottomUp && e.method == M_POST_REACT) || (bottomUp && (e.method == M_PRE_REACT || e.method == M_REACT)))) childrenFirst = true;
+		if (anyFail) {
+			if (!sh.st[size_t(head)].headless && !(planCb == 1 && planCbKind == M_PLAN_FAILED)) {
+				std::snprintf(b, sizeof b, "%s: a sub-state of plan-owning region %d failed, but its head received %d plan callback(s)", h.role.c_str(), head, planCb);
+				violate("C06.complete", b, i, childrenFirst ? "substate_status_taken_for_head_status" : ""); return; }
+			continue;
+		}
+		// success only: every task (in order, while origins are active) whose origin succeeded must have been issued
+		std::vector<Tr> expect;
+		std::set<int> spent;   // a cyclic task (origin == destination) uses up its origin's success: later tasks of that origin wait for the next one
+		for (auto& t : pl) {
+			if (!before.active[size_t(t.origin)]) break;
+			if (spent.count(t.origin)) continue;
+			if (t.origin == t.dest && succ[size_t(t.origin)]) spent.insert(t.origin);
+			if (succ[size_t(t.origin)]) { Tr q; q.origin = head; q.dest = t.dest; q.kind = t.kind; q.hasPayload = t.hasPayload; q.payload = t.payload; expect.push_back(q); }
+		}
+		std::vector<Tr> got; for (auto& q : planIssued) if (q.origin == head) got.push_back(q);
+		if (pl.empty()) {
+			if (!sh.st[size_t(head)].headless && !(planCb == 1 && planCbKind == M_PLAN_SUCCEEDED)) {
+				std::snprintf(b, sizeof b, "%s: a sub-state of region %d succeeded and its attached plan is empty, but the head received %d plan callback(s)", h.role.c_str(), head, planCb); violate("C06.complete", b, i, childrenFirst ? "substate_status_taken_for_head_status" : ""); return; }
+			probe("plan_succeeded_delivered");
+		} else {
+			bool same = got.size() == expect.size();
+			for (size_t k = 0; same && k < got.size(); ++k) same = got[k].dest == expect[k].dest && (got[k].method == 99 || (got[k].hasPayload == expect[k].hasPayload && (!got[k].hasPayload || got[k].payload == expect[k].payload)));
+			if (!same && int(firstRound.size()) < sh.compoCount) {
+				std::snprintf(b, sizeof b, "%s: region %d: %zu task(s) were due (origin active and succeeded), %zu were executed", h.role.c_str(), head, expect.size(), got.size());
+				violate("C06.complete", b, i, childrenFirst ? "substate_status_taken_for_head_status" : ""); return; }
+		}
+	}
+}
+
+// ---- C14: payload attribution ----------------------------------------------------------------------------------------------------
+
+void World::checkPayloads(int i, const Op& op, const Obs& before) {
+	if (!wants("C14")) return;
+	Slot& s = slots[size_t(i)];
+	if (!(s.node->caps() & CAP_PAYLOAD) || !s.obs.alive) return;
+	Harness& h = *s.h;
+	char b[300];
+	auto intact = [&](const std::vector<Tr>& v, const char* where) {
+		for (auto& t : v) if (t.hasPayload && !t.payloadIntact) { std::snprintf(b, sizeof b, "%s: payload of %s(%d) seen through %s is damaged or misaligned", h.role.c_str(), kindName(t.kind), t.dest, where); violate("C14.intact", b, i); return false; }
+		return true;
+	};
+	checked("C14.intact");
+	if (!intact(s.obs.prev, "previousTransitions()") || !intact(s.obs.queued, "requests()")) return;
+	for (auto& g : h.guards) if (!intact(g.pending, "pendingTransitions()") || !intact(g.current, "currentTransitions()")) return;
+
+	if (op.kind == OP_DELIVER || op.kind == OP_SNAPSHOT || op.kind == OP_RESTART) return;   // replicas get their history from the transport
+	// issued requests reach the guards unchanged: everything callbacks or the client issued before the first guard is in the first round's pending list, in order
+	const int fge = firstGuardEvent(h);
+	std::vector<Tr> issued = before.alive ? before.queued : std::vector<Tr>{};
+	for (size_t k = 0; k < h.trace.size(); ++k) {
+		const Ev& e = h.trace[k];
+		if (e.k == EV_ISSUE && (fge < 0 || int(k) < fge)) { Tr t; t.origin = e.state; t.kind = e.a; t.dest = e.b; t.hasPayload = e.hasP; t.payload = e.p; issued.push_back(t); }
+	}
+	if (!h.guards.empty()) {
+		checked("C14.pending");
+		const auto& pend = h.guards.front().pending;
+		size_t j = 0;
+		for (size_t k = 0; k < pend.size() && j < issued.size(); ++k) if (pend[k] == issued[j]) ++j;
+		if (j != issued.size() && int(issued.size()) <= h.shape->compoCount) {
+			const Tr& t = issued[j];
+			std::snprintf(b, sizeof b, "%s: request %s(%d)%s issued from %d is not (unchanged, in order) among what the guards see as pending", h.role.c_str(), kindName(t.kind), t.dest, t.hasPayload ? (" with payload " + std::to_string(t.payload)).c_str() : " without payload", t.origin);
+			violate("C14.pending", b, i); return;
+		}
+		uint64_t hh = 0xC14; for (auto& t : pend) hh = mix64(hh, uint64_t(t.kind) * 64 + uint64_t(t.dest) * 2 + (t.hasPayload ? 1 : 0)); distinct(mix64(hh, std::hash<std::string>()(h.shape->name)));
+	}
+	// all payload values seen anywhere must be values somebody attached (no mixing, no invention)
+	std::vector<std::pair<int64_t, Tr>> known;
+	auto learn = [&](const Tr& t) { if (t.hasPayload) known.emplace_back(t.payload, t); };
+	for (auto& t : issued) learn(t);
+	for (size_t k = 0; k < h.trace.size(); ++k) { const Ev& e = h.trace[k]; if (e.k == EV_ISSUE && e.hasP) { Tr t; t.origin = e.state; t.kind = e.a; t.dest = e.b; t.hasPayload = true; t.payload = e.p; learn(t); } }
+	if (before.alive) { for (auto& p : before.plans) for (auto& t : p) if (t.hasPayload) { Tr q; q.dest = t.dest; q.kind = t.kind; q.hasPayload = true; q.payload = t.payload; q.origin = -2; known.emplace_back(t.payload, q); } for (auto& t : before.prev) learn(t); }
+	for (size_t k = 0; k < h.trace.size(); ++k) { const Ev& e = h.trace[k]; if (e.k == EV_PLAN_EDIT && (e.a & 0xFF) == A_PLAN_APPEND && e.hasP) { Tr q; q.dest = e.c & 0xFFFF; q.kind = (e.a >> 16) & 0xFF; q.hasPayload = true; q.payload = e.p; q.origin = -2; known.emplace_back(e.p, q); } }
+	auto attributable = [&](const Tr& t, const char* where) {
+		if (!t.hasPayload) return true;
+		for (auto& kv : known) if (kv.first == t.payload && kv.second.dest == t.dest) return true;
+		std::snprintf(b, sizeof b, "%s: %s shows %s(%d) carrying payload %lld, which nobody attached to a request for that destination", h.role.c_str(), where, kindName(t.kind), t.dest, (long long) t.payload);
+		violate("C14.attribution", b, i); return false;
+	};
+	checked("C14.attribution");
+	for (auto& g : h.guards) { for (auto& t : g.pending) if (!attributable(t, "pendingTransitions()")) return; for (auto& t : g.current) if (!attributable(t, "currentTransitions()")) return; }
+	for (auto& t : s.obs.prev) if (!attributable(t, "previousTransitions()")) return;
+	for (auto& v : h.views) { for (auto& t : v.current) if (!attributable(t, "currentTransitions() inside enter")) return; if (v.has && !attributable(v.last, "lastTransition() inside update")) return; }
+
+	// while being entered a state finds, in currentTransitions(), the approved requests so far -- among them the one that activates it
+	for (auto& v : h.views) {
+		if (v.method != M_ENTER) continue;
+		if (op.kind == OP_ENTER || op.kind == OP_RESET || op.kind == OP_RESTART || op.kind == OP_SNAPSHOT || op.kind == OP_DELIVER) continue;
+		checked("C14.current_in_enter");
+		// must be a prefix-closed concatenation of approved rounds' pending lists
+		std::vector<Tr> approved;
+		{ int lastRound = -1; for (auto& g : h.guards) if (g.round != lastRound) { lastRound = g.round; bool cancelled = false; for (auto& g2 : h.guards) if (g2.round == g.round && g2.cancelled) cancelled = true; if (!cancelled) approved.insert(approved.end(), g.pending.begin(), g.pending.end()); } }
+		if (h.guards.empty()) { approved = issued; for (size_t k = 0; k < h.trace.size(); ++k) { const Ev& e = h.trace[k]; if (e.k == EV_ISSUE && !(fge < 0 || int(k) < fge)) { Tr t; t.origin = e.state; t.kind = e.a; t.dest = e.b; t.hasPayload = e.hasP; t.payload = e.p; approved.push_back(t); } } }
+		size_t j = 0;
+		for (size_t k = 0; k < approved.size() && j < v.current.size(); ++k) if (approved[k] == v.current[j]) ++j;
+		if (j != v.current.size()) {
+			std::snprintf(b, sizeof b, "%s: inside enter of %d currentTransitions() shows an entry (kind %s dest %d payload %lld) that is not one of the approved requests", h.role.c_str(), v.state,
+				kindName(v.current[j].kind), v.current[j].dest, (long long) v.current[j].payload);
+			violate("C14.current_in_enter", b, i); return;
+		}
+	}
+	// afterwards: what update() callbacks read through lastTransition() is what the instance reports through lastTransitionTo()
+	if (op.kind == OP_UPDATE && before.alive && before.activated && (s.node->caps() & CAP_HISTORY) && !before.lastTo.empty()) {
+		for (auto& v : h.views) {
+			if (v.method != M_UPDATE) continue;
+			checked("C14.last_transition");
+			const int idx = before.lastTo[size_t(v.state)];
+			const bool expectHas = idx >= 0 && idx < int(before.prev.size());
+			if (v.has != expectHas || (v.has && !(v.last == before.prev[size_t(idx)]))) {
+				std::snprintf(b, sizeof b, "%s: state %d reads lastTransition() = %s during update, the instance reported %s for it after the previous step", h.role.c_str(), v.state, v.has ? "a transition" : "nothing", expectHas ? "a (different) transition" : "nothing");
+				violate("C14.last_transition", b, i); return;
+			}
+		}
+	}
+	// a single approved request carrying a payload: every state it activated finds exactly that value
+	if ((s.node->caps() & CAP_HISTORY) && before.alive && before.activated && s.obs.prev.size() == 1 && s.obs.prev[0].hasPayload && !s.obs.lastTo.empty()) {
+		checked("C14.last_to_payload");
+		for (int k = 0; k < h.shape->n; ++k) {
+			const int idx = s.obs.lastTo[size_t(k)];
+			if (idx < 0) continue;
+			Tr t; s.node->lastTransitionTo(k, t);
+			if (!(t == s.obs.prev[0])) { std::snprintf(b, sizeof b, "%s: lastTransitionTo(%d) does not carry the payload of the only approved request", h.role.c_str(), k); violate("C14.last_to_payload", b, i); return; }
+		}
+	}
+}
+
+} // namespace vf
